@@ -72,6 +72,13 @@ def plan(rng, tier):
         cfg["dom"]["nk"] = rng.choice([300, 700])
         cfg["dom"]["ext"] = False
         pre = cfg["dom"]["nk"] * 2 // 3
+    mlist = False
+    if cfg["dom"]["fam"][1] == "O" and is_mapping(cfg["kind"]) and \
+            rng.random() < 0.4:
+        # mutable values, changed in place and assigned again
+        cfg["dom"]["vflavor"] = "mlist"
+        cfg["dom"]["vnone"] = False
+        mlist = True
     dom = Domain(cfg["dom"])
     g = common.Gen(rng, dom, cfg["kind"])
     out = []
@@ -112,7 +119,11 @@ def plan(rng, tier):
                     out.append(_sweep(rng))
         else:
             for _ in range(k):
-                out.append(g.op())
+                if mlist and g.model.d and rng.random() < 0.2:
+                    # v = t[k]; v.append(..); t[k] = v  (the same object)
+                    out.append(["remut", rng.choice(g.model.skeys())])
+                else:
+                    out.append(g.op())
                 if rng.random() < 0.12:
                     out.append(_sweep(rng))
         left -= k
@@ -200,7 +211,12 @@ class _World(object):
         return o["x"]
 
     def listing(self, c):
-        return ops.listing(c, self.mapping)
+        lst = ops.listing(c, self.mapping)
+        if self.dom.vflavor == "mlist":
+            # (mutable values: a recorded listing must not change when the
+            # application later changes a value in place)
+            lst = copy.deepcopy(lst)
+        return lst
 
     def sound(self, c, who, impl):
         if not is_tree(self.kind):
@@ -361,7 +377,19 @@ def execute(plan, ctx):
             trans = set()
             prev_walk = None
             continue
-        got = ops.apply(c, op, dom, impl, kind)
+        if name == "remut":
+            try:
+                v_ = c.get(ops.K(dom, op[1]))
+                if type(v_) is list:
+                    v_.append(len(v_))
+                    c[ops.K(dom, op[1])] = v_
+                    ctx.probe("mutable-value-reassigned")
+                v_ = None
+                got = ("ok", None)
+            except Exception as e:
+                got = ops.norm_exc(e)
+        else:
+            got = ops.apply(c, op, dom, impl, kind)
         nops += 1
         ctx.ev(name, got[0], got[1] if got[0] == "exc" else None)
         if is_tree(kind) and dom.nkeys <= 64:
